@@ -180,11 +180,15 @@ def main(argv=None):
 
     # thorough: second back end must agree
     disagree = []
+    second_incomplete = []
     if second:
         for rel, r2 in second.items():
             r1 = results[rel]
             if r1["status"] != "ok" or r2["status"] != "ok":
-                if r2["status"] != "ok":
+                if r2["status"] == "timeout":
+                    # the second back end not finishing decides nothing and is no reason to call the first one's proof undecided
+                    second_incomplete.append(rel)
+                elif r2["status"] != "ok":
                     undecided.append("%s (kissat): %s" % (rel, r2["status"]))
                 continue
             s1 = {o["id"]: o["status"] for o in r1["obligations"]}
@@ -267,7 +271,7 @@ def main(argv=None):
             "dropped_by_lowering": dropped[:60],
             "samples": samples or [{"note": "no labelled obligation discharged"}],
             "solver_seconds_total": round(solver_s, 1),
-            "second_backend": ("kissat: %d functions re-checked, %d disagreements" % (len(second), len(disagree))) if second else "not run (quick tier)",
+            "second_backend": ("kissat: %d functions re-checked, %d disagreements%s" % (len(second) - len(second_incomplete), len(disagree), ("; kissat did not finish within the time limit for: " + ", ".join(second_incomplete)) if second_incomplete else "")) if second else "not run (quick tier)",
             "native": extra_info,
             "explanation": suite.get("explanation", ""),
         },
